@@ -7,6 +7,7 @@ import (
 	"exoverif/sim"
 
 	"github.com/ExocoreNetwork/exocore/utils"
+	sdk "github.com/cosmos/cosmos-sdk/types"
 	"pgregory.net/rapid"
 )
 
@@ -67,6 +68,21 @@ func makeProbe(t *rapid.T, m *Machine, a Action) *Action {
 		p.Forge = uniform(t, 3, "forge")
 	case a.Kind == "price":
 		p.Sig = 1 + uniform(t, 3, "bad-sig")
+		if len(m.Keys) > 1 && pct(t, 30, "forged-cosigner?") {
+			// a valid report of one validator carrying a second one in the name of another
+			// validator, "co-signed" with the first validator's key
+			p.Sig = 0
+			b := (a.Key + 1 + uniform(t, len(m.Keys)-1, "cosigner")) % len(m.Keys)
+			p.Co = b + 1
+			p.CoNonce = 1
+			if n, found := m.C.App.OracleKeeper.GetNonce(m.C.Ctx(), sdk.ConsAddress(m.Keys[b].ConsAddr()).String()); found {
+				for _, e := range n.NonceList {
+					if e.FeederID == a.Feeder {
+						p.CoNonce = int32(e.Value) + 1
+					}
+				}
+			}
+		}
 	case a.Kind == "updateParams":
 		return nil // every generated parameter update is a probe already
 	case a.Kind == "govSubmit":
